@@ -43,6 +43,8 @@ pub struct GenDict {
     pub unk_covered: bool,     // every category has at least one unk.def row
     /// bigram.right / bigram.left / bigram.cost / dual: build a raw or dual connector instead of matrix.def
     pub bigram: Option<(String, String, String, bool)>,
+    /// with `bigram`: `matrix` holds the DECLARED costs (the defining feature-pair sums of the bigram files)
+    pub declared_conn: bool,
 }
 
 pub struct GenOpts {
@@ -254,7 +256,7 @@ pub fn gen_dict(rng: &mut Rng, o: &GenOpts) -> GenDict {
             _ => { cats.retain(|c| c.name != "DEFAULT"); } // DEFAULT never defined
         }
     }
-    GenDict { cats, ranges, unk, sys, user, nright, nleft, matrix, space_clean, unk_covered, bigram: None }
+    GenDict { cats, ranges, unk, sys, user, nright, nleft, matrix, space_clean, unk_covered, bigram: None, declared_conn: false }
 }
 
 impl GenDict {
